@@ -115,6 +115,12 @@ def run_case(case, tier="quick"):
     # reference optimum --------------------------------------------------------------------------
     meta = case.get("meta") or {}
     ref, ref_desc, exact = None, None, False
+
+    def best_of(sub):
+        b_, _s, _t, complete_ = bf.best_over_route_sets("lae", sub, k, inst.f_req, inst.scale, wt,
+                                                        constraint_pred(inst, sub, constraints, coverage, cyc, spec), max_sets=3000)
+        return b_, complete_
+
     if not cyc:
         fam = inst.dag_paths(limit=12)
         if fam is not None:
@@ -200,8 +206,9 @@ def run_case(case, tier="quick"):
     if ref is not None and obj_re > ref + tol and solver_artifact(case, tier, r):
         return inconclusive("solver artefact: objective changes with HiGHS presolve off", labels)
     if ref is not None and obj_re > ref + tol:
-        if cyc and isinstance(ref_desc, list) and ref_desc and isinstance(ref_desc[0], dict):
-            facts["ref_multiplicity_exceeds_cap"] = max(max(d.values()) for d in ref_desc) > max(inst.f.values())
+        if cyc:
+            ceg = inst.cap_explains_gap(r.model, ref_desc, best_of, obj_re, tol)
+            facts["cap_explains_gap"] = "undecided" if ceg is None else ceg
         return violation("not_optimal", f"returned total error {obj_re} (routes {routes}, weights {weights}) but {ref} is achievable with {ref_desc}", labels, facts=dict(facts, reference=ref))
     if exact and ref is not None and obj_re < ref - tol:
         return inconclusive(f"oracle disagreement: returned {obj_re} below the exhaustive optimum {ref}", labels)
